@@ -124,7 +124,7 @@ func (p *printer) file() {
 	p.optionStatements(fd.GetPackage(), fd.Options)
 
 	// top-level declarations
-	extBlocks := p.extBlocks(fd.Extension)
+	extBlocks := p.extBlocks(fd.Extension, fd.GetPackage(), fd.MessageType, nil)
 	owned := p.ownedByExt(fd.GetPackage(), extBlocks, fd.MessageType)
 	type item = func()
 	var seq []item
@@ -202,14 +202,47 @@ type extBlock struct {
 	fields   []*descriptorpb.FieldDescriptorProto
 }
 
-func (p *printer) extBlocks(exts []*descriptorpb.FieldDescriptorProto) []extBlock {
-	var out []extBlock
-	for _, x := range exts {
-		if n := len(out); n > 0 && out[n-1].extendee == x.GetExtendee() && !p.st.chance(0.25) {
-			out[n-1].fields = append(out[n-1].fields, x)
-			continue
+// extBlocks groups extension fields into extend blocks. A block is split
+// where a message that no field declares (a plain message) lies between two
+// group messages the block would declare, because the order of the message
+// list has to be reproduced.
+func (p *printer) extBlocks(exts []*descriptorpb.FieldDescriptorProto, scope string, msgs []*descriptorpb.DescriptorProto, ownedElsewhere map[int]bool) []extBlock {
+	ownedIdx := func(x *descriptorpb.FieldDescriptorProto) int {
+		if !p.isGroupSyntax(x) {
+			return -1
 		}
-		out = append(out, extBlock{extendee: x.GetExtendee(), fields: []*descriptorpb.FieldDescriptorProto{x}})
+		return findMsg(scope, x.GetTypeName(), msgs)
+	}
+	owned := map[int]bool{}
+	for k := range ownedElsewhere {
+		owned[k] = true
+	}
+	for _, x := range exts {
+		if k := ownedIdx(x); k >= 0 {
+			owned[k] = true
+		}
+	}
+	var out []extBlock
+	last := -1
+	for _, x := range exts {
+		k := ownedIdx(x)
+		split := false
+		if k >= 0 && last >= 0 {
+			for m := last + 1; m < k; m++ {
+				if !owned[m] {
+					split = true
+				}
+			}
+		}
+		if n := len(out); n > 0 && !split && out[n-1].extendee == x.GetExtendee() && !p.st.chance(0.25) {
+			out[n-1].fields = append(out[n-1].fields, x)
+		} else {
+			out = append(out, extBlock{extendee: x.GetExtendee(), fields: []*descriptorpb.FieldDescriptorProto{x}})
+			last = -1
+		}
+		if k >= 0 {
+			last = k
+		}
 	}
 	return out
 }
@@ -409,7 +442,17 @@ func (p *printer) defaultLit(f *descriptorpb.FieldDescriptorProto) string {
 // messageBody prints the contents of a message.
 func (p *printer) messageBody(fq string, m *descriptorpb.DescriptorProto) {
 	p.optionStatements(fq, m.Options)
-	extBlocks := p.extBlocks(m.Extension)
+	fieldOwned := map[int]bool{}
+	for _, f := range m.Field {
+		if k, e := mapEntryOf(fq, f, m.NestedType); e != nil {
+			fieldOwned[k] = true
+		} else if p.isGroupSyntax(f) {
+			if k := findMsg(fq, f.GetTypeName(), m.NestedType); k >= 0 {
+				fieldOwned[k] = true
+			}
+		}
+	}
+	extBlocks := p.extBlocks(m.Extension, fq, m.NestedType, fieldOwned)
 	ownedExt := p.ownedByExt(fq, extBlocks, m.NestedType)
 	// field units: plain fields and oneof blocks
 	type unit struct {
